@@ -17,7 +17,6 @@ cleanup() { git -C /repo worktree remove --force "$SCRATCH/repo" 2>/dev/null; gi
 trap cleanup EXIT
 ids=("$@"); [ ${#ids[@]} -gt 0 ] || ids=($(ls /verif/seeded | grep -E '^C[0-9]+-'))
 cd "$SCRATCH/verif"
-# unchanged tree first: must be quiet
 for id in "${ids[@]}"; do
   d=/verif/seeded/$id
   prop=$(python3 -c "import json;m=json.load(open('$d/meta.json'));print(m.get('check',m['property']))")
@@ -25,6 +24,7 @@ for id in "${ids[@]}"; do
   if ! git -C "$SCRATCH/repo" apply "$d/patch.diff" 2>/dev/null; then echo "$id $prop PATCH-DOES-NOT-APPLY"; continue; fi
   out=$(VERIF_OUT_DIR="$SCRATCH/out/$id" ./check "$prop" --tier quick 2>&1)
   rc=$?
+  mkdir -p "${LOGDIR:-/tmp/seeded-logs}"; echo "$out" > "${LOGDIR:-/tmp/seeded-logs}/$id.log"
   what=$(echo "$out" | grep -E "oracle=" | head -2 | sed 's/^ *//' | cut -c1-160 | tr '\n' ';')
   case $rc in
     1) echo "$id $prop caught: $what";;
